@@ -57,8 +57,8 @@ func runC18(c *Ctx) {
 			for _, g := range GuardingIfs(r) {
 				cond, ts := BoolTest(g.If)
 				if call := CallResult(cond, 0, hb); call != nil && g.Succ == ts {
-					if SameValue(call.Call.Args[2], v) {
-						tv, isC := ConstInt(call.Call.Args[3])
+					if SameValue(PArgs(&call.Call)[2], v) {
+						tv, isC := ConstInt(PArgs(&call.Call)[3])
 						ok = isC && tv == 5*60*1_000_000_000
 					}
 				}
@@ -83,7 +83,7 @@ func runC18(c *Ctx) {
 			okc := PathOf(ctxArg) == P(f, 0)
 			if wt := CallResult(ctxArg, 0, "context.WithTimeout", "context.WithDeadline", "context.WithCancel"); wt != nil {
 				// the long-poll window itself: derived once, outside the loop, from the handler's context
-				okc = !InLoop(wt.Block()) && PathOf(wt.Call.Args[0]) == P(f, 0)
+				okc = !InLoop(wt.Block()) && PathOf(PArgs(&wt.Call)[0]) == P(f, 0)
 			}
 			c.Check("C18.L", "poll:liveness-recorded-under-the-callers-context", p, lp.Pos(), okc, "ListPendingRequests (which also records that the backend was seen) runs under the handler's context / the long-poll window derived from it once", "ListPendingRequests runs under a context derived per iteration ("+PathOf(ctxArg)+"): the store uses that context for the liveness write too, so a short per-poll timeout aborts registerBackendAsSeen on every iteration while the query keeps succeeding — a continuously polling agent is never recorded as live and its users get 404")
 		}
@@ -98,7 +98,7 @@ func runC18(c *Ctx) {
 					if v == since[0].(ssa.Value) {
 						return IntC(d), true
 					}
-					if len(f.Params) == 4 && v == ssa.Value(f.Params[3]) {
+					if len(f.Params) == 4 && v == ssa.Value(ParamAt(f, 3)) {
 						return IntC(1000), true
 					}
 					if bo, ok := v.(*ssa.BinOp); ok && (bo.Op == token.NEQ || bo.Op == token.EQL) && IsNilConst(bo.Y) && bo.X == ls[0].(ssa.Value) {
@@ -153,7 +153,7 @@ func runC18(c *Ctx) {
 		})
 		c.Check("C18.L", "backendLastSeen:error-means-never-seen", p, f.Pos(), ok, "a datastore error yields nil (= dead)", "a datastore error in backendLastSeen does not yield nil")
 		if nk := c.UniqueCall("C18.L", p, f, false, "google.golang.org/appengine/v2/datastore.NewKey"); nk != nil {
-			a := CallOf(nk).Args
+			a := PArgs(CallOf(nk))
 			k, _ := ConstString(a[1])
 			c.Check("C18.L", "backendLastSeen:tracker-of-named-backend", p, nk.Pos(), k == "backendTracker" && PathOf(a[2]) == P(f, 1), "reads the tracker entity of the backend asked about", "backendLastSeen does not read the backendTracker entity keyed by its backendID parameter")
 		}
@@ -161,7 +161,7 @@ func runC18(c *Ctx) {
 	// the tracker is refreshed by the agent's list call
 	if f := c.need(p, "C18.L", "app/store.(*persistentStore).registerBackendAsSeen"); f != nil {
 		if nk := c.UniqueCall("C18.L", p, f, false, "google.golang.org/appengine/v2/datastore.NewKey"); nk != nil {
-			a := CallOf(nk).Args
+			a := PArgs(CallOf(nk))
 			k, _ := ConstString(a[1])
 			c.Check("C18.L", "registerBackendAsSeen:same-tracker-key", p, nk.Pos(), k == "backendTracker" && PathOf(a[2]) == P(f, 2), "the agent's poll refreshes the same tracker entity the liveness test reads", "registerBackendAsSeen writes a different entity than backendLastSeen reads")
 		}
@@ -181,7 +181,7 @@ func runC18(c *Ctx) {
 			}
 			okNow := false
 			if put := c.UniqueCall("C18.L", p, f, false, "google.golang.org/appengine/v2/datastore.Put"); put != nil {
-				for _, r := range Roots(CallOf(put).Args[2]) {
+				for _, r := range Roots(PArgs(CallOf(put))[2]) {
 					if v, has := LiteralField(r, "LastSeen"); has && CallResult(v, 0, "time.Now") != nil {
 						okNow = true
 					}
@@ -222,7 +222,7 @@ func runC18(c *Ctx) {
 			})
 			ok := false
 			if ifi != nil {
-				w := ssa.Value(f.Params[3])
+				w := ssa.Value(ParamAt(f, 3))
 				h1, _ := (&Walk{Target: IsReturn, Avoid: func(i ssa.Instruction) bool { st, k := producesResponse(i, w); return k && st == 404 }}).FromBlock(ifi.Block().Succs[fail])
 				h2, _ := (&Walk{Target: func(i ssa.Instruction) bool { return isStoreCall(i) || isAppHelperCall(i) }}).FromBlock(ifi.Block().Succs[fail])
 				ok = h1 == nil && h2 == nil
@@ -305,7 +305,7 @@ func runC18(c *Ctx) {
 			hp := Calls(f, "strings.HasPrefix")
 			okHP := len(hp) == 1
 			if okHP {
-				a := CallOf(hp[0]).Args
+				a := PArgs(CallOf(hp[0]))
 				okHP = PathOf(a[0]) == P(f, 0) && SameValue(a[1], newPfx) && strings.HasSuffix(PathOf(a[1]), ".PathPrefixes[]")
 			}
 			c.Check("C18.S", "selection:match-is-HasPrefix-path-p", p, f.Pos(), okHP, "a candidate must satisfy strings.HasPrefix(path, p) for the range element p of the current backend's PathPrefixes; p is what is recorded as the best prefix", "the match test is not strings.HasPrefix(<path parameter>, <range element of b.PathPrefixes that is recorded as best prefix>)")
@@ -345,10 +345,10 @@ func runC18(c *Ctx) {
 					return
 				}
 				if b, isB := call.Call.Value.(*ssa.Builtin); isB && b.Name() == "len" {
-					if SameValue(call.Call.Args[0], newPfx) {
+					if SameValue(PArgs(&call.Call)[0], newPfx) {
 						lenNew = call
 					}
-					if a, isPhi := call.Call.Args[0].(*ssa.Phi); isPhi && phiWeb(pfxPhi)[a] {
+					if a, isPhi := PArgs(&call.Call)[0].(*ssa.Phi); isPhi && phiWeb(pfxPhi)[a] {
 						lenBest = call
 					}
 				}
